@@ -12,14 +12,26 @@ Harness configuration (none of it is the subject of C11/C13/C14):
     class attribute (one per Python process); `Net` keeps one counter per peer and swaps it in around
     every entry into that peer's code (`as_peer`), so that serial numbers of different clients collide
     exactly as they do between real processes (all clients start at 1).
+  * likewise `DBusInterface.knownInterfaces` (a process-wide cache keyed by interface name): one dict per
+    peer, swapped in by `as_peer`, so that one client's proxy is never built from what another client
+    introspected;
+  * `txdbus.client.reactor` is a `task.Clock` that never advances (calls with `timeout=` get their delayed
+    call; it never fires);
+  * a client may be BIG-ENDIAN (`add_client(big_endian=True)`): txdbus itself always writes little-endian
+    messages, so every message such a client writes is transcoded on its way into the pipe (body re-encoded
+    big-endian, header re-marshalled with endian 'B'); when the re-encoded body would not decode to the same
+    values (variant type inference) the message is left as it is.  The bus and the receivers then see what a
+    big-endian libdbus peer would send;
   * an exception escaping `dataReceived` is what Twisted turns into "connection lost": it is recorded in
     `net.crashes` and the receiving protocol's `connectionLost` is called; the link is dead afterwards.
 
-Observation: every message a peer completes (`rawDBusMessageReceived`) and every message a peer sends
-(`sendMessage`) is appended to `net.log` as ('recv'|'send', peer, summary) where peer is 'bus:<i>' or
-'cli:<i>' and summary is `msg_summary(msg)`.
+Observation: every message a peer completes (`rawDBusMessageReceived`, the documented override point) is
+appended to `net.log` as ('recv', peer, summary); every message a peer WRITES is observed on the byte pipe
+(framed and parsed by the harness, independent of which method wrote it) as ('send', peer, summary); peer is
+'bus:<i>' or 'cli:<i>' and summary is `msg_summary(msg)`.
 """
 import contextlib
+import struct
 
 BUS = 'bus'
 
@@ -40,16 +52,45 @@ class Pipe:
         self.total = 0
 
 
+def first_msg_len(buf):
+    """Length of the first complete-or-not message announced by the fixed header at the start of buf."""
+    if len(buf) < 16:
+        return None
+    e = '<' if buf[0:1] == b'l' else '>'
+    body = struct.unpack(e + 'I', bytes(buf[4:8]))[0]
+    harr = struct.unpack(e + 'I', bytes(buf[12:16]))[0]
+    hlen = 16 + harr
+    return hlen + ((-hlen) % 8) + body
+
+
 class FakeTransport:
     disconnecting = False
 
-    def __init__(self, out_pipe):
+    def __init__(self, out_pipe, net=None, who=None, proto=None, big_endian=False):
         self.out = out_pipe
+        self.net, self.who, self.proto, self.big_endian = net, who, proto, big_endian
+        self._frame = bytearray()
 
     def write(self, data):
-        if not self.disconnecting:
+        if self.disconnecting:
+            return
+        if self.net is None or not getattr(self.proto, '_authenticated', False):
             self.out.buf += data
             self.out.total += len(data)
+            return
+        # binary mode: observe (and for a big-endian peer transcode) whole messages
+        self._frame += data
+        while True:
+            n = first_msg_len(self._frame)
+            if n is None or len(self._frame) < n:
+                break
+            raw = bytes(self._frame[:n])
+            del self._frame[:n]
+            if self.big_endian:
+                raw = self.net.transcode_big(raw)
+            self.net.observe_sent(self.who, raw)
+            self.out.buf += raw
+            self.out.total += len(raw)
 
     def writeSequence(self, seq):
         for s in seq:
@@ -83,6 +124,23 @@ def msg_summary(m):
     return d
 
 
+def _shape(v):
+    """class-exact, order-preserving picture of a decoded value"""
+    if isinstance(v, dict):
+        return ('d', [(_shape(k), _shape(x)) for k, x in v.items()])
+    if isinstance(v, (list, tuple)):
+        return ('l', [_shape(x) for x in v])
+    if isinstance(v, float):
+        return ('f', struct.pack('>d', v))
+    return (type(v).__name__, v)
+
+
+def msg_summary_key(m):
+    d = msg_summary(m)
+    d['body'] = repr(_shape(d['body'])) if d['body'] is not None else None
+    return repr(sorted(d.items()))
+
+
 class Link:
     def __init__(self, idx, cp, bp, c2b, b2c, factory):
         self.idx, self.cp, self.bp, self.c2b, self.b2c, self.factory = idx, cp, bp, c2b, b2c, factory
@@ -96,6 +154,14 @@ class Net:
         self.per_process_serials = per_process_serials
         self.serials = {BUS: 1}
         self._cur = None
+        from txdbus import interface as _interface, client as _client
+        from twisted.internet import task
+        self._iface_cls = _interface.DBusInterface
+        self._known_base = dict(self._iface_cls.knownInterfaces)     # what a fresh process starts with
+        self._known_outside = self._iface_cls.knownInterfaces
+        self.known = {}
+        self.clock = task.Clock()
+        _client.reactor = self.clock
 
         class AnonOnly(authentication.ClientAuthenticator):
             preference = [b'ANONYMOUS']
@@ -116,28 +182,35 @@ class Net:
     # ------------------------------------------------------------------ per-process serial counters
     @contextlib.contextmanager
     def as_peer(self, who):
-        """Run a block as peer `who` (BUS or a client index): its own DBusMessage._nextSerial."""
+        """Run a block as peer `who` (BUS or a client index): its own DBusMessage._nextSerial and its own
+        DBusInterface.knownInterfaces."""
         if not self.per_process_serials:
             yield
             return
         M = self._message.DBusMessage
+        I = self._iface_cls
         prev, saved = self._cur, M._nextSerial
         if prev is not None:
             self.serials[prev] = saved
         self._cur = who
         M._nextSerial = self.serials.setdefault(who, 1)
+        I.knownInterfaces = self.known.setdefault(who, dict(self._known_base))
         try:
             yield
         finally:
             self.serials[who] = M._nextSerial
             self._cur = prev
             M._nextSerial = self.serials[prev] if prev is not None else saved
+            I.knownInterfaces = self.known[prev] if prev is not None else self._known_outside
+
+    def known_of(self, who):
+        return self.known.setdefault(who, dict(self._known_base))
 
     def next_serial(self, who):
         return self.serials.get(who, 1)
 
     # ------------------------------------------------------------------ construction
-    def add_client(self):
+    def add_client(self, big_endian=False):
         authentication, bus, client, message = _mods()
         idx = len(self.links)
         c2b, b2c = Pipe(), Pipe()
@@ -148,20 +221,53 @@ class Net:
         bp = bus.BusProtocol()
         bp.factory = self.bfactory
         ln = Link(idx, cp, bp, c2b, b2c, f)
+        ln.big_endian = big_endian
         self.links.append(ln)
         self._instrument(cp, 'cli:%d' % idx)
         self._instrument(bp, 'bus:%d' % idx)
         with self.as_peer(BUS):
-            bp.makeConnection(FakeTransport(b2c))
+            bp.makeConnection(FakeTransport(b2c, self, 'bus:%d' % idx, bp))
         with self.as_peer(idx):
-            cp.makeConnection(FakeTransport(c2b))
+            cp.makeConnection(FakeTransport(c2b, self, 'cli:%d' % idx, cp, big_endian=big_endian))
         f.getConnection().addCallbacks(lambda c, i=idx: self.conns.__setitem__(i, c),
                                        lambda e, i=idx: self.conn_errs.__setitem__(i, e))
         return idx
 
+    def observe_sent(self, who, raw):
+        try:
+            m = self._message.parseMessage(raw, [])
+            self.log.append(('send', who, msg_summary(m)))
+        except Exception as e:
+            self.log.append(('send', who, {'t': 'unparsable', 'exc': type(e).__name__}))
+
+    def transcode_big(self, raw):
+        """The same message as a big-endian peer would write it (or `raw` itself when that is not possible
+        without changing the decoded values)."""
+        from txdbus import marshal
+        message = self._message
+        try:
+            m = message.parseMessage(raw, [])
+            body = b''
+            if m.signature:
+                body = b''.join(marshal.marshal(m.signature, m.body, 0, False)[1])
+                back = marshal.unmarshal(m.signature, body, 0, False)[1]
+                if repr(_shape(back)) != repr(_shape(m.body)):
+                    return raw
+            m.endian = ord('B')
+            M = message.DBusMessage
+            keep = M._nextSerial
+            m._marshal(False, rawBody=body)
+            M._nextSerial = keep
+            again = message.parseMessage(m.rawMessage, [])
+            if msg_summary_key(again) != msg_summary_key(message.parseMessage(raw, [])):
+                return raw
+            self.big_written = getattr(self, 'big_written', 0) + 1
+            return m.rawMessage
+        except Exception:
+            return raw
+
     def _instrument(self, proto, who):
         raw = proto.rawDBusMessageReceived
-        snd = proto.sendMessage
         message = self._message
 
         def rawDBusMessageReceived(raw_msg):
@@ -172,12 +278,7 @@ class Net:
                 self.log.append(('recv', who, {'t': 'unparsable', 'exc': type(e).__name__}))
             return raw(raw_msg)
 
-        def sendMessage(msg):
-            self.log.append(('send', who, msg_summary(msg)))
-            return snd(msg)
-
         proto.rawDBusMessageReceived = rawDBusMessageReceived
-        proto.sendMessage = sendMessage
 
     # ------------------------------------------------------------------ delivery
     def pending(self, i, direction):
@@ -235,9 +336,9 @@ class Net:
                             raise RuntimeError('pump: no quiescence after %d deliveries' % limit)
         return k
 
-    def connect_all(self, n):
+    def connect_all(self, n, big_endian=()):
         """Add n clients and pump until each is connected (Hello answered).  Returns the connections."""
-        idxs = [self.add_client() for _ in range(n)]
+        idxs = [self.add_client(big_endian=(k in big_endian)) for k in range(n)]
         self.pump()
         missing = [i for i in idxs if i not in self.conns]
         if missing:
